@@ -25,7 +25,19 @@ import (
 )
 
 const verifDir = "/verif"
-const repoDir = "/repo"
+
+// repoDir is /repo; outDir is where evidence and replay files go (/verif). Both can be overridden
+// for development only (evaluating a breaking change in a scratch worktree while other checks
+// run): VERIF_DEV_REPO, VERIF_DEV_OUT. Registered commands never set them.
+var repoDir = envOr("VERIF_DEV_REPO", "/repo")
+var outDir = envOr("VERIF_DEV_OUT", verifDir)
+
+func envOr(k, d string) string {
+	if v := os.Getenv(k); v != "" {
+		return v
+	}
+	return d
+}
 
 type tierSpec struct {
 	Runs     int           // total run indices
@@ -701,7 +713,7 @@ func (c *ctx) confirm(r *runResult, processLevel bool) (string, error) {
 	fp := r.Violation.fingerprint()
 	rf := &replayFile{Property: c.spec.ID, Scenario: c.scen, Tier: c.tier, Seed: r.Seed, RunIdx: r.Idx, Tape: r.Tape,
 		Fingerprint: fp, Violation: r.Violation, Trace: r.Trace, ProcessLvl: processLevel, Env: c.spec.ExtraEnv}
-	path := filepath.Join(verifDir, "replays", c.spec.ID+"-"+shortHash(fp)+".json")
+	path := filepath.Join(outDir, "replays", c.spec.ID+"-"+shortHash(fp)+".json")
 	tmp := filepath.Join(c.scratch, "replay-"+shortHash(fp)+".json")
 	writeJSON(tmp, rf)
 	if !processLevel {
@@ -1075,7 +1087,7 @@ func (c *ctx) mainFlow(replay string, keep bool) int {
 		"race_detector":          c.spec.Race,
 	}
 	ev := &evidence{PropertyID: c.spec.ID, Tier: c.tier, Seed: int64(c.seed), Level: c.spec.Level, Coverage: cov, Assumptions: c.spec.Assume, WallS: wall, Violations: unknownViol}
-	writeJSON(filepath.Join(verifDir, "evidence", c.spec.ID+".json"), ev)
+	writeJSON(filepath.Join(outDir, "evidence", c.spec.ID+".json"), ev)
 	for _, l := range lines {
 		fmt.Println(l)
 	}
